@@ -92,46 +92,46 @@ def is_significant(tok: Any) -> bool:
     return rule not in ignored and not rule.startswith('_')
 
 
-def wellformed(root: Any, *, self_contained: bool = False) -> list[str]:
-    """Tree.tla!WellFormed on a real tree.  Returns a list of violated clauses."""
-    bad: list[str] = []
+def _wf(root: Any, self_contained: bool) -> list[tuple[str, str]]:
+    """Tree.tla!WellFormed on a real tree: list of (violated clause, message)."""
+    bad: list[tuple[str, str]] = []
     store = root.token_store
     if store is None:
-        return ['root has no token store']
+        return [('NoStore', 'root has no token store')]
     try:
-        order = {id(t): i for i, t in enumerate(store)}
         toks = list(store)
+        order = {id(t): i for i, t in enumerate(toks)}
     except Exception as e:  # noqa: BLE001
-        return [f'store iteration failed: {type(e).__name__}: {e}']
+        return [('NoStore', f'store iteration failed: {type(e).__name__}: {e}')]
     if len(order) != len(toks):
-        bad.append('a token object occurs twice in the store')
+        bad.append(('StoreNoDup', 'a token object occurs twice in the store'))
     leaves: dict[int, int] = {}
 
     def span(m: Any, path: str) -> Optional[tuple[int, int]]:
         try:
             f, l = m.first_token, m.last_token
         except Exception as e:  # noqa: BLE001
-            bad.append(f'{path}: first/last_token raised {type(e).__name__}')
+            bad.append(('InStore', f'{path}: first/last_token raised {type(e).__name__}'))
             return None
         if id(f) not in order or id(l) not in order:
-            bad.append(f'{path}: first/last token not in the root store')
+            bad.append(('InStore', f'{path}: first/last token not in the root store'))
             return None
         a, b = order[id(f)], order[id(l)]
         if a > b:
-            bad.append(f'{path}: first token after last token')
+            bad.append(('SpanOrdered', f'{path}: first token after last token'))
         return a, b
 
     def rec(m: Any, path: str) -> Optional[tuple[int, int]]:
         if isinstance(m, base.RawTokenModel):
             leaves[id(m)] = leaves.get(id(m), 0) + 1
             if id(m) not in order:
-                bad.append(f'{path}: leaf token {m!r} is not in the root store')
+                bad.append(('LeafInStore', f'{path}: leaf token {m!r} is not in the root store'))
                 return None
             if m.token_store is not store:
-                bad.append(f'{path}: leaf token belongs to another store')
+                bad.append(('SameStore', f'{path}: leaf token belongs to another store'))
             return order[id(m)], order[id(m)]
         if m.token_store is not store:
-            bad.append(f'{path}: {type(m).__name__} lives in another token store')
+            bad.append(('SameStore', f'{path}: {type(m).__name__} lives in another token store'))
         sp = span(m, path)
         spans = []
         for name, ch in children(m):
@@ -141,27 +141,64 @@ def wellformed(root: Any, *, self_contained: bool = False) -> list[str]:
         if sp is not None:
             for s, name in spans:
                 if s[0] < sp[0] or s[1] > sp[1]:
-                    bad.append(f'{path}.{name}: child span {s} outside parent span {sp}')
+                    bad.append(('ChildrenNested', f'{path}.{name}: child span {s} outside parent span {sp}'))
         spans.sort()
         for (s1, n1), (s2, n2) in zip(spans, spans[1:]):
             if s2[0] <= s1[1]:
-                bad.append(f'{path}: children {n1} {s1} and {n2} {s2} overlap')
+                bad.append(('SiblingsDisjoint', f'{path}: children {n1} {s1} and {n2} {s2} overlap'))
         return sp
 
     sp = rec(root, '')
     for k, n in leaves.items():
         if n > 1:
-            bad.append('a token object is a leaf at two tree positions')
+            bad.append(('LeafOwnedOnce', 'a token object is a leaf at two tree positions'))
             break
     if sp is not None:
         for i in range(sp[0], sp[1] + 1):
             t = toks[i]
             n = leaves.get(id(t), 0)
             if is_significant(t) and n != 1:
-                bad.append(f'significant token {t!r} at {i} is owned by {n} leaves')
+                bad.append(('SignificantOwned', f'significant token {t!r} at {i} is owned by {n} leaves'))
         if self_contained and (sp[0] != 0 or sp[1] != len(toks) - 1):
-            bad.append(f'not self-contained: span {sp} of a store of {len(toks)} tokens')
+            bad.append(('SelfContained', f'not self-contained: span {sp} of a store of {len(toks)} tokens'))
     return bad
+
+
+def wellformed(root: Any, *, self_contained: bool = False) -> list[str]:
+    return [msg for _, msg in _wf(root, self_contained)]
+
+
+def wellformed_tags(root: Any, *, self_contained: bool = False) -> list[str]:
+    return sorted({tag for tag, _ in _wf(root, self_contained)})
+
+
+def dump(root: Any) -> dict:
+    """The tree as plain data for Tree.tla: tokens are 1..N (store order); a node is
+    [leaf, same (lives in the root's store), tok / first / last (0 = not in the store), kids (node numbers)]."""
+    store = root.token_store
+    toks = list(store)
+    order = {id(t): i + 1 for i, t in enumerate(toks)}
+    nodes: list[dict] = []
+
+    def rec(m: Any) -> int:
+        k = len(nodes)
+        nodes.append({})
+        if isinstance(m, base.RawTokenModel):
+            nodes[k] = {'leaf': True, 'same': m.token_store is store or id(m) not in order, 'tok': order.get(id(m), 0),
+                        'first': order.get(id(m), 0), 'last': order.get(id(m), 0), 'kids': []}
+            if id(m) in order and m.token_store is not store:
+                nodes[k]['same'] = False
+            return k + 1
+        kids = [rec(ch) for _, ch in children(m)]
+        try:
+            f, l = order.get(id(m.first_token), 0), order.get(id(m.last_token), 0)
+        except Exception:  # noqa: BLE001
+            f = l = 0
+        nodes[k] = {'leaf': False, 'same': m.token_store is store, 'tok': 0, 'first': f, 'last': l, 'kids': kids}
+        return k + 1
+
+    rec(root)
+    return {'n': len(toks), 'sig': [bool(is_significant(t)) for t in toks], 'dup': len(order) != len(toks), 'nodes': nodes}
 
 
 # ---------------------------------------------------------------------------
